@@ -202,6 +202,8 @@ CONTEXTS = [('space', ' {v}'), ('paren', '({v})'), ('bracket', '[{v}]'), ('brace
             ('await', 'async def ff():\n    await {v}'), ('in', '0 in {v}'), ('is-not', '0 is not {v}'), ('and', '0 and {v}'), ('if-else', '0 if {v} else 1'),
             ('for-in', 'for q in {v}: pass'), ('assert', 'assert {v}'), ('with', 'with {v}: pass'), ('del-subscript', 'del zz[{v}]'), ('print-arg', 'print(0, {v})'),
             ('import-then', 'import m1; {v}'), ('from-import-then', 'from m1 import x1; {v}'), ('from-in-comment-before', 'zz = 0  # from\n{v}'),
+            ('raise-from-continuation', 'raise E_(0) \\\n    from {v}'), ('yield-from-in-parens', 'def ff():\n    zz = (yield\n        from {v})'),
+            ('from-inside-brackets', 'zz = [0,\n    from_zz, {v}]'), ('from-in-string-continuation', 'zz = """\nfrom """ + str({v})'),
             ('lambda-default', 'lambda q={v}: q'), ('starstar', 'dict(**{v})'), ('matmul', '0@{v}'), ('walrus', '(q := {v})'), ('tab', '\t{v}' if False else 'if 1:\n\t{v}')]
 
 IMPORT_CONTEXTS = ['from m1 import x{C}1', 'from m1 import(x{C}1)', 'from m1 import (x1, y{C}1)', 'from m1 import x1,y{C}1', 'from m1 import x1 as zz, y{C}1',
